@@ -118,10 +118,24 @@ package v2
 //@   ensures result1 == nil ==> result0 != nil
 //@ -- what comes out of the wire decoder is what fromIPLD lets through (a panic in the codec or in the type
 //@ -- assertion below is recovered by the stream handler: see network.handleNewStream)
+//@ ghost lastFrameErr error    -- error of the most recent ReadMsg call on a frame reader
+//@ func github.com/libp2p/go-msgio.Reader.ReadMsg
+//@   assumed
+//@   modifies lastFrameErr, alloc
+//@   ghost lastFrameErr := result1
+//@ func malformedPayload
+//@   modifies nothing
+//@   ensures result == ite(err == io.EOF, io.ErrUnexpectedEOF, err)
 //@ func MessageHandler.FromMsgReader
 //@   lenient
 //@   safety off
-//@   modifies alloc, allmaps("map[graphsync.RequestID]message.GraphSyncRequest"), allmaps("map[graphsync.RequestID]message.GraphSyncResponse"), allmaps("map[cid.Cid]blocks.Block")
+//@   -- (environment: the two sentinel errors of package io are different values)
+//@   requires io.EOF != io.ErrUnexpectedEOF && io.EOF != nil && io.ErrUnexpectedEOF != nil
+//@   modifies lastFrameErr, alloc, allmaps("map[graphsync.RequestID]message.GraphSyncRequest"), allmaps("map[graphsync.RequestID]message.GraphSyncResponse"), allmaps("map[cid.Cid]blocks.Block")
+//@   -- C12: io.EOF is how the stream handler recognises the orderly end of a stream (no reset, no receive error). It is
+//@   -- reported only when the frame reader found the stream at its end - never for a frame that was read but whose payload
+//@   -- does not decode (an empty frame, a payload cut at an item boundary: the codec's own io.EOF)
+//@   ensures result1 == io.EOF ==> lastFrameErr == io.EOF
 //@   ensures result1 == nil ==> (forall id graphsync.RequestID :: id in result0.requests ==> ridBytesLen(id) == 16)
 //@   ensures result1 == nil ==> (forall id graphsync.RequestID :: id in result0.responses ==> ridBytesLen(id) == 16)
 //@   ensures result1 == nil ==> (forall k cid.Cid :: k in result0.blocks ==> blkCid(result0.blocks[k]) == k && isSumOf(k, blkData(result0.blocks[k])))
